@@ -586,8 +586,10 @@ class Gen:
         scal = [v for v in env.scalar_vars() if v[0] != avoid]
         if self.bias == 'cond' and self.recent and r.random() < 0.45:
             # related condition: same variable, neighbouring constant, any operator
-            name, t, cv = r.choice(self.recent[-6:])
-            if any(n == name for n, _t in scal):
+            name, _t0, cv = r.choice(self.recent[-6:])
+            cur = [tt for n, tt in scal if n == name]
+            if cur:
+                t = cur[0]      # the variable's type in *this* scope (names recur across functions)
                 self.feat('related-condition')
                 v = N('var', name, pid=self.pid(), t=t)
                 c = self.mk_lit(cv + r.choice([-1, 0, 0, 0, 1]))
@@ -980,6 +982,7 @@ class Gen:
         """params: list of (type, name)"""
         r = self.rng
         env = Env(None)
+        self.recent = []
         for g, t in self.globals:
             env.add('scalar', g, t)
         for t, n in params:
